@@ -403,8 +403,22 @@ def run_setting(ctx, mods, number, choice, nsites, mode, tolerance=None, max_pat
             ctx.record(name + ": goals evaluated at the witness of the path condition", "counterexample")
             ctx.violation("orbit:%d:%s" % (number, choice), "%s: %s" % (tag, early[0]), cex_data(mdl), replay_orbit)
             return len(paths)       # one report per setting
-        rr = ctx.query(name + ": %d images <-> %d kept rows, ranges, metadata, generator, Cartesian, occupancy" % (len(ref), M), pcq, z3.And(*[g for _, g in goals]),
+        qname = name + ": %d images <-> %d kept rows, ranges, metadata, generator, occupancy" % (len(ref), M)
+        rr = ctx.query(qname, pcq, z3.And(*[g for _, g in goals]),
                        ex=ex, timeout=30 if ctx.tier == "quick" else 120, vacuity=False)
+        if rr.verdict == "unknown" and len(goals) > 4:
+            # the conjunction timed out: decide it in pieces (the timed-out attempt stays in the record, superseded)
+            ctx.inconclusive[:] = [q for q in ctx.inconclusive if q.get("query") != qname]
+            step = max(1, len(goals) // 12)
+            verdicts = []
+            for a in range(0, len(goals), step):
+                part = goals[a:a + step]
+                r2 = ctx.query("%s [goals %d-%d of %d]" % (qname, a, a + len(part) - 1, len(goals)), pcq, z3.And(*[g for _, g in part]), ex=ex,
+                               timeout=30 if ctx.tier == "quick" else 120, vacuity=False)
+                verdicts.append(r2)
+                if r2.verdict == "cex":
+                    break
+            rr = next((v for v in verdicts if v.verdict == "cex"), None) or next((v for v in verdicts if v.verdict == "unknown"), None) or verdicts[-1]
         # Cartesian rows: bilinear in (fractional row, cell).  Decided with the fractional coordinates generalised to
         # fresh reals (a stronger statement without the integer part of the wrap); exact terms only if that fails
         if rr.verdict == "holds" and cgoals:
